@@ -81,6 +81,9 @@ func (o c15Op) String() string {
 	if o.Kind == 'G' {
 		return "G"
 	}
+	if o.Kind == 'X' {
+		return "Gcancelled"
+	}
 	return fmt.Sprintf("%c(%d,%d)", o.Kind, o.K.C, o.K.S)
 }
 
@@ -102,6 +105,20 @@ func c15RunSeq(r *vbase.Result, batch int, ops []c15Op) bool {
 			cc.Proposed(&clientpb.Batch{Commands: []*clientpb.Command{{ClientID: op.K.C, SequenceNumber: op.K.S}}})
 			ref.proposed([]cmdKey{op.K})
 			sawP = true
+		case 'X':
+			// a Get whose context is already cancelled (a view change racing the request): it may return the context error or,
+			// if a batch is ready, that batch - and whichever it does, it must not swallow the wake-up of the next Get
+			ctx, cancel := context.WithCancel(context.Background())
+			cancel()
+			b, err := cc.Get(ctx)
+			r.Obs("gets_with_cancelled_context", 1)
+			if err == nil {
+				want := ref.get()
+				if want == nil || fmt.Sprint(keysOf(b)) != fmt.Sprint(want) {
+					return fail("wrong-batch", fmt.Sprintf("Get with a cancelled context returned %v, the model's batch is %v", keysOf(b), want), i)
+				}
+				r.Obs("batches", 1)
+			}
 		case 'G':
 			if sawP {
 				nt = true
@@ -157,9 +174,9 @@ func c15Seq(p vbase.Params, r *vbase.Result) {
 	if p.Thorough() {
 		maxLen = 6
 	}
-	r.Rule = fmt.Sprintf("real CommandCache vs reference (FIFO of accepted commands + per-client proposed marker): ALL sequences over add/mark-proposed/get for 2 clients x seq 1..2, batch sizes 1..3, length <= %d; "+
+	r.Rule = fmt.Sprintf("real CommandCache vs reference (FIFO of accepted commands + per-client proposed marker): ALL sequences over add/mark-proposed/get/get-with-cancelled-context for 2 clients x seq 1..2, batch sizes 1..3, length <= %d; "+
 		"random sequences (3 clients, seq 1..6, length <= 80); a Get the model says must block is given a 150us deadline and may only return the context error; a Get the model says must return is awaited "+
-		"(10s watchdog) and must return exactly the model's batch; non-trivial: a mark-proposed before a get; distinct: (batch size, sequence)", maxLen)
+		"(30s watchdog) and must return exactly the model's batch; non-trivial: a mark-proposed before a get; distinct: (batch size, sequence)", maxLen)
 	r.Exhaustive = true
 	var alpha []c15Op
 	for c := uint32(1); c <= 2; c++ {
@@ -167,7 +184,7 @@ func c15Seq(p vbase.Params, r *vbase.Result) {
 			alpha = append(alpha, c15Op{'A', cmdKey{c, s}}, c15Op{'P', cmdKey{c, s}})
 		}
 	}
-	alpha = append(alpha, c15Op{Kind: 'G'})
+	alpha = append(alpha, c15Op{Kind: 'G'}, c15Op{Kind: 'X'})
 	idx := 0
 	for batch := 1; batch <= 3; batch++ {
 		for l := 1; l <= maxLen; l++ {
@@ -208,7 +225,7 @@ func c15Seq(p vbase.Params, r *vbase.Result) {
 		next := map[uint32]uint64{}
 		for k := range ops {
 			c := uint32(rng.Range(1, 3))
-			switch rng.Weighted([]int{6, 2, 3}) {
+			switch rng.Weighted([]int{6, 2, 3, 1}) {
 			case 0:
 				s := next[c] + 1
 				if rng.Chance(1, 5) {
@@ -219,8 +236,10 @@ func c15Seq(p vbase.Params, r *vbase.Result) {
 				ops[k] = c15Op{'A', cmdKey{c, s}}
 			case 1:
 				ops[k] = c15Op{'P', cmdKey{c, uint64(rng.Range(1, 6))}}
-			default:
+			case 2:
 				ops[k] = c15Op{Kind: 'G'}
+			default:
+				ops[k] = c15Op{Kind: 'X'}
 			}
 		}
 		if !c15RunSeq(r, batch, ops) && r.NViolations() > 2 {
